@@ -13,7 +13,8 @@ EXPLANATION = (
     "and shifted integers has no invariant generator in reach; this is the larger half of C06."
     ' Added after the third round of seeded changes: both length searches are bounded by n_word_max - sign (not by the requested word); read-back conversions (C16.R2); no class-level state (C20.R7).'
     ' Added after the fourth round of seeded changes: the inaccuracy comparison is made on what was stored (C04.R2); C20.R8 objects carry only the documented attributes and no function writes module-level containers (no caches / memos that go stale).'
-    ' Added after the fifth round of seeded changes: constructor state (C20.R2); C20.R8 also forbids mutable default arguments and private attributes hung on operands (x._cache, x.__dict__[...]).')
+    ' Added after the fifth round of seeded changes: constructor state (C20.R2); C20.R8 also forbids mutable default arguments and private attributes hung on operands (x._cache, x.__dict__[...]).'
+    ' Added after the sixth round of seeded changes: C20.R8 also covers class-level containers (memo shared by every instance, also when written through a local alias); module / class constants that are mutable containers are only treated as constants when they never escape a read position.')
 ASSUMPTIONS = ["the fraction search returns E = exact fraction length and the shift loop the required integer bits (the declined part)"]
 TRUSTED = ["CPython ast", "fxlint term normaliser"]
 
